@@ -134,5 +134,22 @@ ExecFrom(toks, i, b, e) ==
        ELSE ExecFrom(toks, i + 1, b, e)
 ExecLog(toks) == ExecFrom(toks, 1, 0, 0)
 
+\* -noast: actions run inline when reached; text is the most recently completed capture in
+\* execution order (nothing is undone on backtracking).  adds is exactly that event stream.
+RECURSIVE NoAstFrom(_, _, _, _)
+NoAstFrom(adds, w, i, text) ==
+  IF i > Len(adds) THEN <<>>
+  ELSE LET t == adds[i] IN
+       IF t[1] = "PegText" THEN NoAstFrom(adds, w, i + 1, SubSeq(w, t[2] + 1, t[3]))
+       ELSE IF IsActName(t[1]) THEN <<<<ActIndex(t[1]), text>>>> \o NoAstFrom(adds, w, i + 1, text)
+       ELSE NoAstFrom(adds, w, i + 1, text)
+NoAstLog(adds, w) == NoAstFrom(adds, w, 1, <<>>)
+
+RECURSIVE IsSubseq(_, _, _, _)
+IsSubseq(a, i, b, j) ==   \* a[i..] is a subsequence of b[j..]
+  IF i > Len(a) THEN TRUE
+  ELSE IF j > Len(b) THEN FALSE
+  ELSE IF a[i] = b[j] THEN IsSubseq(a, i + 1, b, j + 1) ELSE IsSubseq(a, i, b, j + 1)
+
 NonEmpty(toks) == SelectSeq(toks, LAMBDA t : t[2] # t[3])
 =============================================================================
